@@ -91,11 +91,11 @@ Proof.
   destruct (split_amount s) as [ap|e]; cbn [bind]; [|discriminate].
   destruct (parse_amount_text true s) as [pa0|e] eqn:E; cbn [bind]; [|discriminate].
   pose proof (parse_keeps_dc s pa0 E) as H0.
-  destruct (set_str_accepts (ap_quant ap)); intros H; inversion H; subst; [exact H0 | cbn [pa_style]; exact H0].
+  destruct (set_str_accepts (ap_quant ap)); intros H; inversion H; subst; exact H0.
 Qed.
 
-(* the mark-stripping loop: digits pass unchanged, and a single mark between digits is removed - the texts the printer
-   emits never put two marks side by side, so there the loop yields the digits alone (what digits_value reads) *)
+(* the mark-stripping loop: digits pass unchanged and every mark is removed, so the loop yields the digits alone (what
+   digits_value reads) *)
 Lemma is_mark_digit c : is_digit c = true -> is_mark c = false.
 Proof. intros H. unfold is_mark. destruct (is_digit_not_mark c H) as [-> ->]. reflexivity. Qed.
 
@@ -110,7 +110,7 @@ Lemma strip_marks_between ip m f0 fp :
   strip_marks (ip ++ m :: f0 :: fp) = ip ++ f0 :: strip_marks fp.
 Proof.
   intros Hi Hm Hf. induction Hi as [|c ip Hc _ IH]; cbn [app strip_marks].
-  - rewrite Hm. reflexivity.
+  - rewrite Hm, (is_mark_digit f0 Hf). reflexivity.
   - rewrite (is_mark_digit c Hc), IH. reflexivity.
 Qed.
 
@@ -304,11 +304,20 @@ Proof.
         apply plain_text_roundtrip; assumption.
 Qed.
 
-(* the reader's quirk on malformed input (not a text the printer emits): of two adjacent marks one survives the
-   stripping loop, mpq_set_str refuses the text and the amount is taken as zero *)
-Example adjacent_marks_read_as_zero :
-  strip_marks [49;46;44;50] = [49;44;50] /\ set_str_accepts [49;46;44;50] = false /\
-  (exists pa, parse_amount_text_session false false [49;46;44;50;32;69;85;82] = Ok pa /\ pa_num pa = 0 /\ pa_prec pa = 1) /\
+(* two adjacent marks (not a text the printer emits): the stripping loop removes both, mpq_set_str gets the digits and
+   the amount is what the scan made of it - `1.,2 EUR` is 1,2 EUR (decimal comma, one decimal), `1,.2 EUR` is 1.2 EUR *)
+Lemma strip_marks_only_digits s : forallb (fun c => negb (is_mark c)) (strip_marks s) = true.
+Proof.
+  induction s as [|c t IH]; cbn [strip_marks]; [reflexivity|].
+  destruct (is_mark c) eqn:E; [exact IH|]. cbn [forallb]. rewrite E. exact IH.
+Qed.
+
+Example adjacent_marks_both_stripped :
+  strip_marks [49;46;44;50] = [49;50] /\ set_str_accepts [49;46;44;50] = true /\
+  (exists pa, parse_amount_text_session false false [49;46;44;50;32;69;85;82] = Ok pa /\ pa_num pa = 12 /\ pa_prec pa = 1
+              /\ st_decimal_comma (pa_style pa) = true) /\
+  (exists pa, parse_amount_text_session false false [49;44;46;50;32;69;85;82] = Ok pa /\ pa_num pa = 12 /\ pa_prec pa = 1
+              /\ st_decimal_comma (pa_style pa) = false) /\
   (exists pa, parse_amount_text_session false false [49;44;50;32;69;85;82] = Ok pa /\ pa_num pa = 12 /\ pa_prec pa = 1).
 Proof. vm_compute. repeat split; eexists; repeat split; reflexivity. Qed.
 
